@@ -15,6 +15,8 @@
    with the outer parameters filling the gaps otherwise. *)
 From Verif Require Import Base Scope Types Prog Pop Token Authorize System Config Required Rets ConfigProofs C11Proofs.
 From Verif Require Import Jar RequiredJar C11JarProofs.
+From Verif Require Import Run Monitors PkceProofs.
+From Verif.Corr Require C11Eff.
 Local Open Scope N_scope.
 
 (* "required" options set the required flag AND enable the mechanism, whatever else is in the list
@@ -89,6 +91,30 @@ Theorem pkce_public_client_enforced : forall cfg statics st n r, cf_pkce_enabled
   xrefused (snd (step_g (mkWorld cfg statics) st n (OpAuthorize r))).
 Proof. exact C11Proofs.pkce_public_client_enforced. Qed.
 Print Assumptions pkce_public_client_enforced.
+
+(* PKCE cannot be downgraded at the token endpoint either ("supplied with a disabled method"): over ALL
+   histories of every built configuration, a code whose session recorded a challenge is redeemed only with
+   a verifier that matches the challenge under an ENABLED method - the one the authorization request
+   named, else the server's default, which is itself an enabled method.  In particular, with S256 the only
+   enabled method, a challenge sent WITHOUT code_challenge_method cannot be redeemed by presenting the
+   challenge string as the verifier.  pkce_enabled_match is the predicate of the monitor's clause 12. *)
+Theorem pkce_no_downgrade_at_token_endpoint : forall iss mtls p opts cfg statics, build p opts = Some cfg ->
+  forall dyn ops n now r,
+  let st := s_store (fst (run_from (mkWorld cfg statics) (init_state dyn) 0 ops)) in
+  is_tokens (snd (run_seq (code_grant (mkWorld cfg statics) n now r) st)) = true ->
+  exists s, find (fun s => ideq (a_code s) (t_code r)) (st_asess st) = Some s /\
+    (cf_pkce_enabled cfg = true -> pk_is_empty (p_challenge (a_params s)) = false ->
+       exists m, Discovery.advertised_in iss mtls cfg Discovery.MCodeChallengeMethods m = true /\ mem m (cf_pkce_methods cfg) = true /\
+                 is_pkce_valid (t_verifier r) (p_challenge (a_params s)) m = true /\
+                 C11Eff.pkce_enabled_match cfg (a_params s) (t_verifier r) = true).
+Proof. exact exchange_under_advertised_method_all. Qed.
+Print Assumptions pkce_no_downgrade_at_token_endpoint.
+
+(* the default method of every built configuration with PKCE on is one of its enabled methods *)
+Theorem pkce_default_is_enabled : forall p opts cfg, build p opts = Some cfg -> cf_pkce_enabled cfg = true ->
+  mem (cf_pkce_default cfg) (cf_pkce_methods cfg) = true.
+Proof. exact build_pkce_default_listed. Qed.
+Print Assumptions pkce_default_is_enabled.
 
 (* ---- openid scope, resource indicators ---- *)
 Theorem openid_required_enforced : forall p opts cfg statics, build p opts = Some cfg ->
